@@ -2,14 +2,17 @@
 C10 — Resource limits and cancellation are hard bounds (walk-engine clauses; the image-layer byte
 limit is `C10_layer_bytes` in Properties/C10Layer.lean).
 
-CONFIGURATION CLASSES (classes of configurations, not narrowing hypotheses on the input):
+NAMING AND CONFIGURATION CLASSES.  A theorem that holds only inside a class of configurations carries the class in its NAME
+(`_benign`, `_fatalcfg`, `_limitcfg`, `_cancelcfg`): that is a restriction of the property's quantifier over configurations,
+not a relabelling; `_partial` marks a hypothesis that narrows the quantifier over inputs (DistinctNames, one root, `paths = []`,
+NoGiFaults, NoReadFaults).  Names without suffix hold for EVERY configuration (at most `NoExtractorPanic` / the matcher's domain law).
   * EVERY configuration (any limit, fatal errors or not, cancellation before / inside any `Extract`, panicking
     extractors, all combinations): the hard bounds `C10_inodes` (processed inodes ≤ MaxInodes), `C10_size`,
     `C10_cancel_walk`, `C10_cancel_same_file`, `C10_cancel_before`.
   * `LimitCfg c` (inode limit set; errors not fatal, no cancellation, no panicking extractor): EXACT theorem
-    `C10_inodes_exact` (+ `C10_fails_when_more`, `C10_visits_vs_inodes`).
+    `C10_inodes_exact_limitcfg` (+ `C10_fails_when_more`, `C10_visits_vs_inodes`).
   * `CancelCfg c k` (cancelled from inside the k-th `Extract`; no inode limit, errors not fatal, no panicking
-    extractor): EXACT theorems `C10_cancel_trace`, `C10_cancel_outcome`, `C10_cancel_prefix`, `C10_cancel_between`.
+    extractor): EXACT theorems `C10_cancel_trace_cancelcfg`, `C10_cancel_outcome_cancelcfg`, `C10_cancel_prefix_cancelcfg`, `C10_cancel_between`.
   * Every NON-FATAL configuration without a panicking extractor — including limit + cancellation together and
     cancellation before the scan — is described exactly by `run_trace` (Proofs/WalkTrace.lean), of which the two
     classes above are corollaries.  Combinations with `ErrorOnFSErrors` (limit+fatal, cancellation+fatal) have the
@@ -25,6 +28,7 @@ import Scalibr.Spec.Walk
 import Scalibr.Proofs.WalkLimit
 import Scalibr.Proofs.WalkCancel
 import Scalibr.Proofs.WalkAnchor
+import Scalibr.Proofs.WalkAny
 namespace Scalibr.Walk
 
 /-- Whatever the forest, fault plans, options and cancellation point: `AfterInodeVisited` — i.e. an inode
@@ -50,7 +54,7 @@ theorem C10_cancel_walk (c : Cfg) (f : Faults) (s : St) (p : Path) (n : Node) (h
 
 /-- … and the extractions still started after a cancellation from inside `Extract` all concern the file
 being handled at that moment: the loop over extractors only ever makes attempts for its own file.  (A structural
-fact of the loop, independent of cancellation; the cancellation-specific statement is `C10_cancel_trace`.) -/
+fact of the loop, independent of cancellation; the cancellation-specific statement is `C10_cancel_trace_cancelcfg`.) -/
 theorem C10_cancel_same_file (c : Cfg) (f : Faults) (p : Path) (size : Nat) (rs : List Nat) (s : St) (chk : Bool) :
     ∃ cs, (extractLoop c f p size s rs chk).1.calls = s.calls ++ cs ∧ ∀ cl ∈ cs, cl.path = p :=
   extractLoop_paths c f p size rs s chk
@@ -69,7 +73,7 @@ theorem C10_cancel_before (c : Cfg) (hc : c.cancelBefore = true) (r : Node) (f :
 
 /-- … so for whole-tree scans, or when errors are not fatal, or without gitignore handling:
 `err = .ctx ∧ calls = [] ∧ visited = 1`. -/
-theorem C10_cancel_before_ctx (c : Cfg) (hc : c.cancelBefore = true)
+theorem C10_cancel_before_ctx_partial (c : Cfg) (hc : c.cancelBefore = true)
     (hq : c.paths = [] ∨ c.errorOnFSErrors = false ∨ c.useGitignore = false)
     (r : Node) (f : Faults) (rest : List (Node × Faults)) :
     (run c ((r, f) :: rest)).err = .ctx ∧ (run c ((r, f) :: rest)).calls = [] ∧ (run c ((r, f) :: rest)).visited = 1 :=
@@ -96,7 +100,7 @@ EXACTLY when that number exceeds the limit, and reports exactly `min visitsScan 
 shared by all roots.  For the property's wording in terms of inodes see `C10_inodes` (never more than the limit
 are processed), `C10_fails_when_more` (it fails when the forest holds more reachable inodes than the limit) and the
 remark at `C10_early_failure_witness` (error reports can make it fail although the inodes alone would fit). -/
-theorem C10_inodes_exact (c : Cfg) (hl : LimitCfg c) (hd : DomainLaw c.giMatch) (roots : List (Node × Faults)) :
+theorem C10_inodes_exact_limitcfg (c : Cfg) (hl : LimitCfg c) (hd : DomainLaw c.giMatch) (roots : List (Node × Faults)) :
     (run c roots).err = (if visitsScan c roots > c.maxInodes then .maxInodes else .none) ∧
     (run c roots).visited = min (visitsScan c roots) c.maxInodes :=
   run_limit c hl hd roots
@@ -115,21 +119,44 @@ theorem C10_visits_vs_inodes (c : Cfg) (roots : List (Node × Faults)) :
       visitsScan c roots = reachableInodesScan c roots) :=
   ⟨visitsScan_anchor c roots, reachableInodesScan_le_visitsScan c roots, visitsScan_eq_reachable' c roots⟩
 
-/-- "… and fails when the tree holds more" (class `LimitCfg`): if the forest holds more reachable inodes than the
-limit, the scan fails with the MaxInodes error (having processed exactly `MaxInodes` of them: `C10_inodes_exact`). -/
-theorem C10_fails_when_more (c : Cfg) (hl : LimitCfg c) (hd : DomainLaw c.giMatch) (roots : List (Node × Faults))
+/-- "… and fails when the tree holds more", exact error (class `LimitCfg`; for every configuration see
+`C10_fails_when_more`): if the forest holds more reachable inodes than the
+limit, the scan fails with the MaxInodes error (having processed exactly `MaxInodes` of them: `C10_inodes_exact_limitcfg`). -/
+theorem C10_fails_when_more_limitcfg (c : Cfg) (hl : LimitCfg c) (hd : DomainLaw c.giMatch) (roots : List (Node × Faults))
     (h : reachableInodesScan c roots > c.maxInodes) : (run c roots).err = .maxInodes := by
-  have := (C10_inodes_exact c hl hd roots).1
+  have := (C10_inodes_exact_limitcfg c hl hd roots).1
   have hle := reachableInodesScan_le_visitsScan c roots
   rw [this, if_pos (by omega)]
 
+/-- **"… and fails when the tree holds more", for EVERY configuration without a panicking extractor** (fatal errors or
+not, cancellation before the scan or inside any `Extract`, a size limit — all combinations): with an inode limit set,
+if the forest holds more reachable inodes than the limit, the scan does not succeed.  (Which error it reports depends
+on what comes first — the limit, a fatal filesystem error or the cancelled context; `C10_fails_when_more_limitcfg`
+gives the exact error in class `LimitCfg`.) -/
+theorem C10_fails_when_more (c : Cfg) (hx : ∀ e p, (c.extract e p).panics = false) (hd : DomainLaw c.giMatch)
+    (roots : List (Node × Faults)) (hm : c.maxInodes > 0) (h : reachableInodesScan c roots > c.maxInodes) :
+    (run c roots).err ≠ .none :=
+  run_fails_when_more c hx hd roots hm h
+
+/-- **Every configuration without a panicking extractor is the sequential machine, unless it fails with the filesystem
+error**: the scan ends with the filesystem error (possible only with `ErrorOnFSErrors`), or its attempts, error and
+visited-inode count are those `machineOutcome` (Spec/WalkMachine.lean: count the inode — MaxInodes beyond the limit;
+report the visit — context error when cancelled; make the call's attempts, the k-th `Extract` cancels) prescribes on
+the specification's trace of the configuration with the flag cleared.  Covers limit + cancellation together,
+cancellation before the scan, and — through the first disjunct — the fatal combinations. -/
+theorem C10_machine_any (c : Cfg) (hx : ∀ e p, (c.extract e p).panics = false) (hd : DomainLaw c.giMatch)
+    (roots : List (Node × Faults)) :
+    ((run c roots).err = .fs ∧ c.errorOnFSErrors = true) ∨
+    ((run c roots).calls, (run c roots).err, (run c roots).visited) = machineOutcome (nonFatal c) roots :=
+  run_machine_any c hx hd roots
+
 /-- … and conversely, when nothing on the walk fails, it fails ONLY then: with no failing directory open / read and
 all start paths present, `err = .maxInodes ↔ reachable inodes > limit`. -/
-theorem C10_fails_iff_more (c : Cfg) (hl : LimitCfg c) (hd : DomainLaw c.giMatch) (roots : List (Node × Faults))
+theorem C10_fails_iff_more_partial (c : Cfg) (hl : LimitCfg c) (hd : DomainLaw c.giMatch) (roots : List (Node × Faults))
     (hnf : ∀ rf ∈ roots, NoWalkFaults rf.2 ∧ (if c.paths.isEmpty then rf.2.statFail [] = false
         else ∀ p ∈ c.paths, rf.2.statFail p = false ∧ lookup rf.1 p ≠ none)) :
     (run c roots).err = .maxInodes ↔ reachableInodesScan c roots > c.maxInodes := by
-  have h1 := (C10_inodes_exact c hl hd roots).1
+  have h1 := (C10_inodes_exact_limitcfg c hl hd roots).1
   rw [visitsScan_eq_reachable' c roots hnf] at h1
   rw [h1]
   split <;> simp_all
@@ -145,7 +172,7 @@ no extractor panic).  `mustExtract` = the attempts owed without cancellation; `t
   extractors of the file being handled still run), nothing of `post`; it fails with the context error iff
   a `handleFile` call remained (`post ≠ []`: a further file, directory or error report), which is still
   counted as visited. -/
-theorem C10_cancel_trace (c : Cfg) (k : Nat) (hc : CancelCfg c k) (hd : DomainLaw c.giMatch) (roots : List (Node × Faults)) :
+theorem C10_cancel_trace_cancelcfg (c : Cfg) (k : Nat) (hc : CancelCfg c k) (hd : DomainLaw c.giMatch) (roots : List (Node × Faults)) :
     (traceScan c roots).flatten = mustExtract c roots ∧ (∀ b ∈ traceScan c roots, OnePath b) ∧
     (openedCount (mustExtract c roots) < k →
       (run c roots).err = .none ∧ (run c roots).calls = mustExtract c roots ∧
@@ -160,7 +187,7 @@ theorem C10_cancel_trace (c : Cfg) (k : Nat) (hc : CancelCfg c k) (hd : DomainLa
 /-- … and in terms of `mustExtract` alone: the attempts made are a prefix of the attempts owed; the scan
 fails — with the context error — whenever an owed attempt was not made; the attempts from the cancelling
 one on (`blk`) all concern one file. -/
-theorem C10_cancel_prefix (c : Cfg) (k : Nat) (hc : CancelCfg c k) (hd : DomainLaw c.giMatch) (roots : List (Node × Faults)) :
+theorem C10_cancel_prefix_cancelcfg (c : Cfg) (k : Nat) (hc : CancelCfg c k) (hd : DomainLaw c.giMatch) (roots : List (Node × Faults)) :
     ∃ rest, mustExtract c roots = (run c roots).calls ++ rest ∧
       (rest ≠ [] → (run c roots).err = .ctx) ∧
       ((run c roots).err = .none ∨ (run c roots).err = .ctx) ∧
@@ -172,7 +199,7 @@ theorem C10_cancel_prefix (c : Cfg) (k : Nat) (hc : CancelCfg c k) (hd : DomainL
 /-- … and as a function: the attempts, the error and the visited-inode count are exactly what
 `cancelOutcome` (Spec/WalkCount.lean: "every `handleFile` call up to and including the one holding the k-th
 `Extract`, nothing after it, failure iff a call remained") reads off the specification's trace. -/
-theorem C10_cancel_outcome (c : Cfg) (k : Nat) (hc : CancelCfg c k) (hd : DomainLaw c.giMatch) (roots : List (Node × Faults)) :
+theorem C10_cancel_outcome_cancelcfg (c : Cfg) (k : Nat) (hc : CancelCfg c k) (hd : DomainLaw c.giMatch) (roots : List (Node × Faults)) :
     ((run c roots).calls, (run c roots).err, (run c roots).visited) = cancelOutcome k 0 (traceScan c roots) :=
   run_cancel_outcome c k hc hd roots
 
@@ -181,7 +208,7 @@ cannot tell at which moment DURING a call the context was cancelled: a cancellat
 the j-th call (`cancelAt`) has exactly the outcome of a cancellation arriving between the j-th call and the next one
 (`cancelBetween j`: the calls so far complete, nothing later attempted, failure iff a call remained, which is still
 counted as visited).  Hence every between-calls cancellation point that follows a call which ran at least one
-`Extract` IS one of the modelled `cancelAt` points, and `C10_cancel_outcome` describes it.
+`Extract` IS one of the modelled `cancelAt` points, and `C10_cancel_outcome_cancelcfg` describes it.
 NOT expressible at scan level in this model (nor producible by the harness, whose cancellations are triggered from
 inside a fake `Extract`, or before the scan — `cancelBefore`, `C10_cancel_before`): a cancellation arriving after a
 call that ran no `Extract` (a directory, an ignored or not required file).  For those points the statements are the
@@ -192,6 +219,18 @@ theorem C10_cancel_between (k : Nat) (pre : List (List Call)) (blk : List Call) 
     (h1 : openedCount pre.flatten < k) (h2 : k ≤ openedCount (pre.flatten ++ blk)) :
     cancelOutcome k 0 (pre ++ blk :: post) = cancelBetween (pre.length + 1) (pre ++ blk :: post) :=
   cancelOutcome_between k pre blk post h1 h2
+
+/-- … and at scan level (class `CancelCfg`): when the k-th `Extract` is owed, the scan's attempts, error and
+visited-inode count ARE `cancelBetween j` of the specification's trace, `j` being the `handleFile` call during which the
+k-th `Extract` runs — the engine cancelled inside that `Extract` does exactly what a cancellation between call `j` and
+call `j+1` must produce.  (Between-calls points after a call WITHOUT any `Extract` remain outside the model: no
+theorem at scan level, see above.) -/
+theorem C10_cancel_between_run_cancelcfg (c : Cfg) (k : Nat) (hc : CancelCfg c k) (hd : DomainLaw c.giMatch) (roots : List (Node × Faults))
+    (hk : k ≤ openedCount (mustExtract c roots)) :
+    ∃ j, 1 ≤ j ∧ j ≤ (traceScan c roots).length ∧
+      openedCount ((traceScan c roots).take (j - 1)).flatten < k ∧ k ≤ openedCount ((traceScan c roots).take j).flatten ∧
+      ((run c roots).calls, (run c roots).err, (run c roots).visited) = cancelBetween j (traceScan c roots) :=
+  run_cancel_between c k hc hd roots hk
 
 /-! Non-vacuity (specification side only).  A tree with 5 inodes to visit (also 5 when directory `d` cannot be
 opened: the failure is reported by a second call and `b` is not reached; 6 + 1 with a failing end-of-listing
@@ -205,8 +244,8 @@ example : visitsScan (exL 3) [(exTreeL, {})] = 5 ∧ visitsScan (exL 3) [(exTree
 /-- the theorem at work: over the limit the scan fails after exactly 3 visits, at the limit it succeeds -/
 example : (run (exL 3) [(exTreeL, {})]).err = .maxInodes ∧ (run (exL 3) [(exTreeL, {})]).visited = 3 ∧
     (run (exL 5) [(exTreeL, {})]).err = .none := by
-  have h3 := C10_inodes_exact (exL 3) ⟨by decide, rfl, rfl, rfl, fun _ _ => rfl⟩ (fun _ _ _ _ _ => rfl) [(exTreeL, {})]
-  have h5 := C10_inodes_exact (exL 5) ⟨by decide, rfl, rfl, rfl, fun _ _ => rfl⟩ (fun _ _ _ _ _ => rfl) [(exTreeL, {})]
+  have h3 := C10_inodes_exact_limitcfg (exL 3) ⟨by decide, rfl, rfl, rfl, fun _ _ => rfl⟩ (fun _ _ _ _ _ => rfl) [(exTreeL, {})]
+  have h5 := C10_inodes_exact_limitcfg (exL 5) ⟨by decide, rfl, rfl, rfl, fun _ _ => rfl⟩ (fun _ _ _ _ _ => rfl) [(exTreeL, {})]
   rw [h3.1, h3.2, h5.1]
   decide
 
@@ -222,7 +261,7 @@ example : traceScan (exK 1) [(exTree2, {})] =
 /-- the theorem at work: both extractors get `a`, nothing for `b`, the scan fails; root, `a` and `b` are counted -/
 example : (run (exK 1) [(exTree2, {})]).calls = [⟨0, ["a"], 1, true⟩, ⟨1, ["a"], 1, true⟩] ∧
     (run (exK 1) [(exTree2, {})]).err = .ctx ∧ (run (exK 1) [(exTree2, {})]).visited = 3 := by
-  have h := C10_cancel_outcome (exK 1) 1 ⟨rfl, rfl, rfl, rfl, by decide, fun _ _ => rfl⟩ (fun _ _ _ _ _ => rfl) [(exTree2, {})]
+  have h := C10_cancel_outcome_cancelcfg (exK 1) 1 ⟨rfl, rfl, rfl, rfl, by decide, fun _ _ => rfl⟩ (fun _ _ _ _ _ => rfl) [(exTree2, {})]
   have h' : cancelOutcome 1 0 (traceScan (exK 1) [(exTree2, {})]) = ([⟨0, ["a"], 1, true⟩, ⟨1, ["a"], 1, true⟩], .ctx, 3) := by decide
   rw [h'] at h
   simp only [Prod.mk.injEq] at h
@@ -248,11 +287,11 @@ example : reachableInodesScan (exL 2) [(exDTree, exDFault)] = 2 ∧ visitsScan (
 theorem C10_early_failure_witness :
     (run (exL 2) [(exDTree, exDFault)]).err = .maxInodes ∧ (run (exL 2) [(exDTree, {})]).err = .none ∧
     reachableInodesScan (exL 2) [(exDTree, exDFault)] ≤ (exL 2).maxInodes := by
-  have h1 := C10_inodes_exact (exL 2) ⟨by decide, rfl, rfl, rfl, fun _ _ => rfl⟩ (fun _ _ _ _ _ => rfl) [(exDTree, exDFault)]
-  have h2 := C10_inodes_exact (exL 2) ⟨by decide, rfl, rfl, rfl, fun _ _ => rfl⟩ (fun _ _ _ _ _ => rfl) [(exDTree, {})]
+  have h1 := C10_inodes_exact_limitcfg (exL 2) ⟨by decide, rfl, rfl, rfl, fun _ _ => rfl⟩ (fun _ _ _ _ _ => rfl) [(exDTree, exDFault)]
+  have h2 := C10_inodes_exact_limitcfg (exL 2) ⟨by decide, rfl, rfl, rfl, fun _ _ => rfl⟩ (fun _ _ _ _ _ => rfl) [(exDTree, {})]
   rw [h1.1, h2.1]
   decide
-/-- the fault-free hypothesis of `C10_visits_vs_inodes` / `C10_fails_iff_more` is satisfiable -/
+/-- the fault-free hypothesis of `C10_visits_vs_inodes` / `C10_fails_iff_more_partial` is satisfiable -/
 example : ∀ rf ∈ [(exTreeL, ({} : Faults))], NoWalkFaults rf.2 ∧ (if (exL 3).paths.isEmpty then rf.2.statFail [] = false
     else ∀ p ∈ (exL 3).paths, rf.2.statFail p = false ∧ lookup rf.1 p ≠ none) := by
   intro rf hrf
@@ -264,5 +303,14 @@ between call 2 and call 3 -/
 example : cancelOutcome 1 0 (traceScan (exK 1) [(exTree2, {})]) = cancelBetween 2 (traceScan (exK 1) [(exTree2, {})]) := by decide
 /-- `C10_cancel_before` hypotheses are satisfiable with requested paths -/
 example : ({ exK 1 with cancelBefore := true, paths := [["a"]] } : Cfg).cancelBefore = true := rfl
+
+/-! `C10_fails_when_more` / `C10_machine_any` outside the exact classes: inode limit 3 TOGETHER with fatal errors and a
+cancellation inside the 1st `Extract`, on the 5-inode tree — more reachable inodes than the limit, so the scan fails;
+the machine says how: the context error at the third visit (`a` is extracted, cancelling; `d` is the failing call). -/
+def exLC : Cfg := { exL 3 with errorOnFSErrors := true, cancelAt := some 1 }
+example : reachableInodesScan exLC [(exTreeL, {})] = 5 ∧
+    machineOutcome (nonFatal exLC) [(exTreeL, {})] = ([⟨0, ["a"], 1, true⟩], .ctx, 3) := by decide
+example : (run exLC [(exTreeL, {})]).err ≠ .none :=
+  C10_fails_when_more exLC (fun _ _ => rfl) (fun _ _ _ _ _ => rfl) _ (by decide) (by decide)
 
 end Scalibr.Walk
